@@ -33,7 +33,7 @@ def scope(tier):
 
 def shards(tier):
     out = [dict(part="bytes"), dict(part="portcpu"), dict(part="args"),
-           dict(part="decode"), dict(part="history")]
+           dict(part="decode"), dict(part="history"), dict(part="decseq")]
     out += [dict(part="cmd", k=k) for k in range(4)]
     out += [dict(part="seq", k=k) for k in range(4)]
     if tier != "quick":
@@ -289,6 +289,57 @@ def part_history(acc):
     acc.sample(dict(part="history", menu=[m[0] for m in menu]))
 
 
+def part_decseq(acc):
+    """Decoding histories: packet A is decoded, then a packet B that differs
+    from A in exactly one byte (every byte position of the SDP and SCP
+    headers and of the arguments; two alternative values); B must decode to
+    its own fields whatever was decoded before (both classes, both orders)."""
+    from rig.machine_control.packets import SCPPacket, SDPPacket
+    for scp in (True, False):
+        cls = SCPPacket if scp else SDPPacket
+        slots = SCP_SLOTS if scp else SDP_SLOTS
+        for bi, bg in enumerate(BACKGROUNDS):
+            a = ref_encode(bg, scp)
+            for pos in range(2, len(a)):
+                for flip in (0xff, 0x01):
+                    b = bytearray(a)
+                    if pos == 2:
+                        b[pos] = 0x87 if a[pos] == 0x07 else 0x07
+                    else:
+                        b[pos] ^= flip
+                    b = bytes(b)
+                    for first, second in ((a, b), (b, a)):
+                        acc.evaluations += 1
+                        acc.nontrivial += 1
+                        case = dict(scp=scp, what="decseq",
+                                    first=first.hex(), second=second.hex())
+                        try:
+                            if scp:
+                                cls.from_bytestring(first, n_args=3)
+                                got = cls.from_bytestring(second, n_args=3)
+                            else:
+                                cls.from_bytestring(first)
+                                got = cls.from_bytestring(second)
+                        except Exception as e:
+                            acc.violation(dict(kind="decode_exception",
+                                               field="decseq"), case,
+                                          "decoding raised %s: %s"
+                                          % (type(e).__name__, e))
+                            continue
+                        want = ref_decode(second, scp, 3)
+                        for s_ in slots:
+                            if getattr(got, s_) != want[s_]:
+                                acc.violation(
+                                    dict(kind="decode_after_decode",
+                                         field=s_), case,
+                                    "after decoding %s, %s decodes with "
+                                    "%s = %r (its bytes say %r)"
+                                    % (first.hex(), second.hex(), s_,
+                                       getattr(got, s_), want[s_]))
+                                break
+    acc.sample(dict(part="decseq", backgrounds=len(BACKGROUNDS)))
+
+
 def part_pairs(acc, k):
     """Pairwise: two 8-bit fields jointly over a boundary alphabet, the 16-bit
     fields jointly with each byte field."""
@@ -320,6 +371,8 @@ def run_shard(params, tier, acc):
         part_decode(acc)
     elif p == "history":
         part_history(acc)
+    elif p == "decseq":
+        part_decseq(acc)
     elif p in ("cmd", "seq"):
         part_word16(acc, "cmd_rc" if p == "cmd" else "seq", params["k"])
     elif p == "pairs":
@@ -332,6 +385,9 @@ def replay(case, acc):
         return
     if case.get("what") == "history":
         part_history(acc)
+        return
+    if case.get("what") == "decseq":
+        part_decseq(acc)
         return
     f = dict(case["fields"])
     f["data"] = bytes.fromhex(f["data"])
